@@ -3,7 +3,7 @@
    every operation as a list of integers (compared exactly with the
    implementation's state). Model file. *)
 From Coq Require Import QArith Qminmax List Bool Arith ZArith.
-From WSI Require Import Vqip Pow Enc Tank Arc QTank Distrib Kinds.
+From WSI Require Import Vqip Pow Enc Tank Arc QTank Distrib Kinds Boundary.
 Import ListNotations.
 Open Scope Q_scope.
 
@@ -261,5 +261,24 @@ Fixpoint run_catch (maxiter : nat) (c : cstate) (steps : list (Q * vec * vec * l
       | None => [(-999)%Z]
       | Some (c', out) => out ++ run_catch maxiter c' rest
       end
+  end.
+
+(* ---------------- boundary functions ---------------- *)
+Inductive bop := BRain (rain et0 : Q) (tn : vec) | BDep | BHouse (T : Q).
+Fixpoint run_boundary (area coef : Q) (load : vec) (pop pc : Q) (dload : vec) (ctemp w : Q) (others : vec)
+  (t : tank) (ops : list bop) : list Z :=
+  match ops with
+  | [] => []
+  | o :: r =>
+      let '(t', out) :=
+        match o with
+        | BRain rain et0 tn => let '(t', p, e) := imp_precip_evap t area coef rain et0 tn in (t', encq p ++ encq e)
+        | BDep => match load with
+                  | [] => (t, ev vzero)
+                  | _ => let '(t', p) := simple_deposition t area load in (t', ev p)
+                  end
+        | BHouse T => (t, ev (house_demand pop pc dload (house_temperature T ctemp w) others))
+        end in
+      out ++ ev (t_sto t') ++ run_boundary area coef load pop pc dload ctemp w others t' r
   end.
 End Dim.
